@@ -7,4 +7,4 @@ unset GOOS GOARCH
 if [ ! -x bin/asverif ] || [ -n "$(find checker -name '*.go' -newer bin/asverif 2>/dev/null | head -1)" ]; then
   ./setup.sh || { echo "CHECKER-FAILURE: cannot build the checker"; exit 2; }
 fi
-exec bin/asverif check "$1" --tier "${2:-${VERIF_TIER:-quick}}" --repo "${VERIF_REPO:-/repo}" --evidence /verif/evidence --findings /verif/known_findings.json
+exec bin/asverif check "$1" --tier "${2:-${VERIF_TIER:-quick}}" --repo "${VERIF_REPO:-/repo}" --evidence "${VERIF_EVIDENCE:-/verif/evidence}" --findings /verif/known_findings.json
